@@ -73,6 +73,8 @@ func runC04(c *Ctx, r *Report, tier string) {
 	r.Rule("OUT-buffer", "showBuiltinHelp renders into a local buffer", 1)
 	r.Rule("TYPED", "every error stored to parseState.err or returned from the parse functions originates from nil, a typed constructor, parseState.err, Parser.internalError or user code; foreign errors only through marshalError/wrapError or the ok-edge of err.(*Error)", 8)
 	r.Rule("TYPE-table", "each *Error constructor site on the parse path carries the documented ErrorType for its cause", 10)
+	r.Rule("FIELD", "Option.field: only .Name is read outside the Field() accessor; stored only by the scan", 4)
+	r.Rule("ERR-kept", "a package-internal error obtained in a loop is tested before the call is repeated", 3)
 	r.Rule("VALID", "in convert / convertUnmarshal every reflect.Value.Elem() is REQ(¬IsNil) or follows a Set of the same value", 3)
 	r.Rule("PROGRESS", "the token-consuming loops make progress on every iteration", 2)
 	scope := parseScope(c, r)
@@ -496,6 +498,137 @@ func (c *Ctx) progressRules(r *Report) {
 	aa := c.mustFn(r, "(*parseState).addArgs")
 	if pa == nil || aa == nil {
 		return
+	}
+	// FIELD: Option.field is the zero StructField for options added programmatically (AddOption): on the parse path
+	// only its Name (a string) may be read; its Type is a nil interface there
+	if of := c.mustField(r, "Option", "field"); of != nil {
+		nF := 0
+		for _, fn := range c.Funcs {
+			for _, b := range fn.Blocks {
+				for _, in := range b.Instrs {
+					fa, ok := in.(*ssa.FieldAddr)
+					if !ok || fieldObj(fa.X.Type(), fa.Field) != of || fa.Referrers() == nil {
+						continue
+					}
+					for _, ref := range *fa.Referrers() {
+						okUse, what := false, ""
+						switch u := ref.(type) {
+						case *ssa.DebugRef:
+							continue
+						case *ssa.FieldAddr:
+							what = fieldVarName(fieldObj(u.X.Type(), u.Field))
+							okUse = what == "Name"
+						case *ssa.UnOp:
+							what = "the whole StructField"
+							okUse = c.fname(fn) == "(*Option).Field"
+						case *ssa.Store:
+							what = "store"
+							okUse = u.Addr == ssa.Value(fa) && setupFn(c, fn)
+						default:
+							what = fmt.Sprintf("%T", ref)
+						}
+						nF++
+						r.Check(okUse, "FIELD", c.fname(fn), "use of Option.field", c.ipos(ref), "only field.Name is read (the Field() accessor returns the struct; the scan stores it)", "Option.field."+what+" is used in "+c.fname(fn)+": for an option added with AddOption the struct field is the zero value (Type is nil), so this panics or misbehaves")
+					}
+				}
+			}
+		}
+		r.Check(nF >= 3, "FIELD", "package", "uses of Option.field found", "", "≥ 3", fmt.Sprintf("%d", nF))
+	}
+	// ERR-kept: an error obtained inside a loop is not overwritten by the next iteration: from a call whose error
+	// result is used, the same call is reached again only through the nil edge of a test of that very error
+	{
+		flowCtx = c
+		nK := 0
+		for _, fn := range c.Funcs {
+			loops := loopsOf(fn)
+			if len(loops) == 0 {
+				continue
+			}
+			for _, b := range fn.Blocks {
+				if innermost(loops, b) == nil {
+					continue
+				}
+				for i, in := range b.Instrs {
+					call, ok := in.(*ssa.Call)
+					if !ok {
+						continue
+					}
+					evs := errValuesOfCall(call)
+					if len(evs) == 0 {
+						continue
+					}
+					cal := call.Common().StaticCallee()
+					if cal == nil || cal.Pkg != c.Pkg {
+						continue // package-internal error producers only
+					}
+					flows := map[ssa.Value]bool{}
+					for _, ev := range evs {
+						for v := range flowsTo(ev) {
+							flows[v] = true
+						}
+					}
+					used := false
+					for _, ev := range evs {
+						if ev.Referrers() != nil {
+							for _, ref := range *ev.Referrers() {
+								if _, dbg := ref.(*ssa.DebugRef); !dbg {
+									used = true
+								}
+							}
+						}
+					}
+					if !used {
+						continue // a deliberately dropped error is another matter
+					}
+					lp := innermost(loops, b)
+					tested := false
+					for lb := range lp.Blocks {
+						iff, ok := lb.Instrs[len(lb.Instrs)-1].(*ssa.If)
+						if !ok {
+							continue
+						}
+						if bo, ok := iff.Cond.(*ssa.BinOp); ok && (isConstNil(bo.X) || isConstNil(bo.Y)) {
+							v := bo.X
+							if isConstNil(bo.X) {
+								v = bo.Y
+							}
+							if flows[v] {
+								tested = true
+							}
+						}
+					}
+					// (an error handed straight to a return or to another call inside the loop is looked at there)
+					for v := range flows {
+						if v.Referrers() == nil {
+							continue
+						}
+						for _, ref := range *v.Referrers() {
+							switch u := ref.(type) {
+							case *ssa.Return:
+								if lp.Blocks[u.Block()] {
+									tested = true
+								}
+							case ssa.CallInstruction:
+								if lp.Blocks[u.Block()] && ref != ssa.Instruction(call) {
+									tested = true
+								}
+							case *ssa.Store:
+								if lp.Blocks[u.Block()] {
+									tested = true
+								}
+							}
+						}
+					}
+					found := !tested
+					var path []string
+					_ = i
+					nK++
+					r.Check(!found, "ERR-kept", c.fname(fn), "an error from "+c.calleeName(call.Common())+" is not overwritten by the next iteration", c.ipos(in), "the error is tested (or returned, stored or passed on) inside the loop", "the loop goes round without looking at the error: an earlier failure is overwritten by a later success"+pathStr(path))
+				}
+			}
+		}
+		r.Check(nK >= 2, "ERR-kept", "package", "error-producing calls in loops found", "", "≥ 2", fmt.Sprintf("%d", nK))
 	}
 	// VALID: convert and convertUnmarshal start with retval.Type(): the zero Value (Elem of a nil interface/pointer) must not reach them
 	nValid := 0
